@@ -60,7 +60,19 @@ RECURSIVE Tuples(_, _)
 Tuples(ps, j) ==
   IF j > Len(ps) THEN {<<>>} ELSE {<<c>> \o t : c \in Classes(ps[j]), t \in Tuples(ps, j + 1)}
 
+\* Mis-kinded calls: one argument of a foreign kind (written "kind:class"), the others nominal.  Whether such a call
+\* is accepted is the checker's decision; the property starts from that decision, so these belong to the space too
+\* (they are the cases in which the run-time code relies on the checker having looked at that very parameter).
+Reps == {<<"n", "1">>, <<"n", "half">>, <<"n", "var#">>, <<"n", "elem">>, <<"s", "abc">>, <<"s", "fixed">>, <<"s", "hi200">>,
+         <<"v", "field">>, <<"vs", "elems">>, <<"vs", "var$">>, <<"a", "arr1">>, <<"a", "arr2">>}
+Nominal(kind) == CASE kind = "n" -> "n:1" [] kind = "s" -> "s:abc" [] kind = "h" -> "h:1" [] kind = "v" -> "v:var%"
+                   [] kind = "vs" -> "vs:var$" [] kind = "a" -> "a:arr1"
+Foreign(kind) == {r[1] \o ":" \o r[2] : r \in {q \in Reps : q[1] # kind}}
+Mis(ps) == UNION {{[j \in 1..Len(ps) |-> IF j = i THEN f ELSE Nominal(ps[j])] : f \in Foreign(ps[i])} : i \in 1..Len(ps)}
+
 Init ==
+  \/ /\ what = "fun" /\ sig \in Funs /\ args \in Mis(sig.ps) /\ wrap \in {"plain", "nested"} /\ place \in {"main", "handler"}
+  \/ /\ what = "sub" /\ sig \in Subs /\ args \in Mis(sig.ps) /\ wrap = "plain" /\ place \in {"main", "handler"}
   \/ /\ what = "fun" /\ sig \in Funs /\ args \in Tuples(sig.ps, 1) /\ wrap \in Wrappers /\ place \in Places
   \/ /\ what = "sub" /\ sig \in Subs /\ args \in Tuples(sig.ps, 1) /\ wrap = "plain" /\ place \in Places
 Next == UNCHANGED vars
